@@ -3,6 +3,7 @@ CONSTANT WriterSets <- W2or3
 CONSTANT InitLens = {0, 1}
 CONSTANT InitTombs = {FALSE}
 CONSTANT Modes = {FALSE, TRUE}
+CONSTANT AheadSets <- NoAhead
 CONSTANT Kinds = {"put", "push", "del"}
 SPECIFICATION Spec
 VIEW view
